@@ -553,6 +553,8 @@ pub fn run_parent(pa: &ParentArgs) -> i32 {
             "samples": agg.samples,
             "nontrivial_cases": agg.nontrivial,
             "runs_per_hour": if wall > 0.0 { (agg.evaluations as f64 / wall * 3600.0) as u64 } else { 0 },
+            "seeds_per_hour": if wall > 0.0 { (agg.evaluations as f64 / wall * 3600.0) as u64 } else { 0 },
+            "seeds_note": "one case = one derived seed mix(VERIF_SEED, world, property, run); replaying a seed reproduces the execution exactly",
             "steps_total": agg.steps,
             "simulated_time_note": "sux-rs has no clock or timer; simulated time is a step counter (operations executed, lender items delivered, scheduling points crossed)",
             "oracle_checks": agg.checks,
